@@ -7,5 +7,6 @@ CONSTANTS Kinds <- SomeKinds
   Damages <- AllDamages
   EOF_IS_BROKEN = TRUE
   TRIM_TWICE = TRUE
+  USED_HOISTED = FALSE
 INVARIANTS TypeOK PropertyHolds
 CHECK_DEADLOCK FALSE
